@@ -44,6 +44,9 @@ class C14(Prop):
         s["peer"]["solver"] = "CLARABEL"
         s["peer"]["force_solver"] = True
         s["cfg"]["kwargs"] = {"solver": "CLARABEL"} if rng.random() < 0.7 else {}
+        s["cfg"].pop("positional", None)
+        if rng.random() < 0.3:
+            s["cfg"]["positional"] = rng.choice([4, 5, 6, 6])   # options given positionally, in the documented order
         twin = copy.deepcopy(s)
         twin["cfg"].pop("heuristic")
         twin["cfg"]["mode"] = "dual"
